@@ -255,6 +255,68 @@ fn execute(auth: &Value, senders: &[usize], poll_order: &[usize], complete_order
     Ok(shape)
 }
 
+/// Free-running pass (sampled): the FIRST requests through clones of one freshly built
+/// allow-list layer, issued from several OS threads at the same instant. State shared between
+/// clones that is initialised on first use can only misbehave here. The oracle is exact.
+fn free_running(unit: &Value, out: &mut UnitResult) {
+    let trials = unit["trials"].as_u64().unwrap() as usize;
+    let threads = 4usize;
+    for trial in 0..trials {
+        crate::pool::crumb(|| format!("free-running allow-list trial {trial}"));
+        out.evaluations += 1;
+        // a long list (the listed senders first and last in it), fresh for every trial
+        let n = 20_000usize;
+        let id = |i: usize| {
+            let mut b = [0x5a; 32];
+            b[..8].copy_from_slice(&(i as u64).to_le_bytes());
+            PeerId(b)
+        };
+        let list: Vec<PeerId> = (0..n).map(id).collect();
+        let layer = RequireAuthorizationLayer::new(AllowedPeers::new(list));
+        let counter = Arc::new(std::sync::atomic::AtomicUsize::new(0));
+        let gate = Arc::new(std::sync::atomic::AtomicUsize::new(0));
+        let mut hs = vec![];
+        for t in 0..threads {
+            let c2 = counter.clone();
+            let inner = tower::service_fn(move |_r: Request<Bytes>| {
+                c2.fetch_add(1, Ordering::SeqCst);
+                async move { Ok::<_, Infallible>(Response::new(Bytes::new())) }
+            });
+            let mut svc = layer.layer(inner);
+            let gate = gate.clone();
+            // thread 0..2: listed senders (first, last, middle); thread 3: an unlisted one
+            let (sender, listed) = match t {
+                0 => (id(0), true),
+                1 => (id(n - 1), true),
+                2 => (id(n / 2), true),
+                _ => (id(n + 7), false),
+            };
+            hs.push(std::thread::spawn(move || {
+                gate.fetch_add(1, Ordering::SeqCst);
+                while gate.load(Ordering::SeqCst) < threads {
+                    std::hint::spin_loop();
+                }
+                let rt = tokio::runtime::Builder::new_current_thread().enable_time().build().unwrap();
+                let resp = rt.block_on(svc.call(Request::new(Bytes::new()).with_extension(sender))).unwrap();
+                (listed, resp.status())
+            }));
+        }
+        let results: Vec<(bool, StatusCode)> = hs.into_iter().map(|h| h.join().unwrap()).collect();
+        let served = counter.load(Ordering::SeqCst);
+        for (listed, status) in &results {
+            let want = if *listed { StatusCode::Success } else { StatusCode::NotFound };
+            if *status != want {
+                out.violation("wrong-refusal", format!("[free-running, {threads} threads issuing the first requests through clones of a fresh allow-list of {n}] a {} sender got {status:?}", if *listed { "listed" } else { "unlisted" }), json!({"unit": unit, "trial": trial}));
+            }
+        }
+        if served != 3 {
+            out.violation(if served > 3 { "refused-but-invoked" } else { "accepted-but-not-invoked" }, format!("[free-running] the wrapped service was invoked {served} times for 3 listed and 1 unlisted sender"), json!({"unit": unit, "trial": trial}));
+        }
+        out.class("free-running first requests");
+    }
+    out.count("free_running_trials", trials as u64);
+}
+
 fn sequences(max: usize) -> Vec<Vec<usize>> {
     let mut out = vec![];
     let mut layer: Vec<Vec<usize>> = vec![vec![]];
@@ -279,7 +341,7 @@ impl Check for C20 {
             property: "C20",
             level: "model_checking",
             rule: "authorizers: AllowedPeers over every subset of 3 identities, 14 pairs of nested AllowedPeers layers (outer list around inner list), accept-all, reject-with-custom-response, reject-by-sender, mutate-then-accept; request sequences: every sequence of 1-3 (quick) / 1-4 (thorough) senders from {no identity, 3 identities, a 4th} dispatched round-robin over 3 instances of the layered service (two clones + one built again from the layer); every poll order and every completion order; the inner service counts invocations when `call` is made; states = executions, transitions = requests; distinct = distinct accept/refuse shapes".into(),
-            assumptions: vec!["hand-driven executor; the authorizers are synchronous, as the trait requires".into()],
+            assumptions: vec!["hand-driven executor; the authorizers are synchronous, as the trait requires".into(), "a supplementary FREE-RUNNING pass (4 OS threads issuing the first requests through clones of a fresh 20 000-entry allow-list, 160 | 1600 trials, exact oracle) samples races in state shared between clones; counted under free_running_trials, not part of the exhaustive claim".into()],
             exhaustive: true,
         }
     }
@@ -289,6 +351,9 @@ impl Check for C20 {
         for (outer, inner) in [(7u64, 0u64), (7, 1), (7, 2), (7, 4), (7, 3), (7, 5), (7, 6), (7, 7), (3, 1), (3, 2), (5, 4), (1, 2), (2, 1), (6, 3)] {
             u.push(json!({"kind":"nested_allowed_peers","outer":outer,"inner":inner}));
         }
+        for part in 0..4 {
+            u.push(json!({"kind":"free-running","part":part,"trials":_tier.pick(40, 400)}));
+        }
         for k in ["accept_all", "mutate_then_accept", "reject_custom", "reject_odd_senders"] {
             u.push(json!({"kind":k}));
         }
@@ -296,6 +361,10 @@ impl Check for C20 {
     }
 
     fn run_unit(&self, tier: Tier, unit: &Value, out: &mut UnitResult) {
+        if unit["kind"] == "free-running" {
+            free_running(unit, out);
+            return;
+        }
         for senders in sequences(tier.pick(4, 5)) {
             crate::pool::crumb(|| format!("authorization layer, senders {senders:?}"));
             let n = senders.len();
@@ -326,6 +395,11 @@ impl Check for C20 {
     }
 
     fn replay(&self, replay: &Value) -> String {
+        if replay["unit"]["kind"] == "free-running" {
+            let mut out = UnitResult::default();
+            free_running(&replay["unit"], &mut out);
+            return format!("free-running unit re-run (thread timing is not reproducible): {:?}", out.violations.iter().map(|v| &v.message).collect::<Vec<_>>());
+        }
         let v = |k: &str| -> Vec<usize> { replay[k].as_array().unwrap().iter().map(|x| x.as_u64().unwrap() as usize).collect() };
         format!("{:?}", execute(&replay["unit"], &v("senders"), &v("poll_order"), &v("complete_order")))
     }
